@@ -635,6 +635,10 @@ func setFromParamVal(buf []byte, pf *PFromBody) ErrorHdr {
 						}
 						pf.Q = uint16(u*1000 + d)
 					}
+				} else if err == ErrHdrNumTooBig || err == ErrHdrValTooLong {
+					// q out of range (does not even fit 64 bits): flag it
+					pf.ParamErr = err
+					pf.ErrOffs = OffsT(pf.vstart)
 				}
 			} else {
 				err = ErrHdrValTooLong
@@ -665,8 +669,19 @@ func setFromParamVal(buf []byte, pf *PFromBody) ErrorHdr {
 
 func pUInt64Val(b []byte) (n uint64, err ErrorHdr) {
 
+	// leading zeros do not count towards the length limit
+	for len(b) > 20 && b[0] == '0' {
+		b = b[1:]
+	}
 	if len(b) > 20 {
 		err = ErrHdrValTooLong
+		for _, c := range b {
+			if c < '0' || c > '9' {
+				return
+			}
+		}
+		// a number too big for 64 bits: saturate instead of reporting 0
+		n = ^uint64(0)
 		return
 	}
 
@@ -674,6 +689,12 @@ func pUInt64Val(b []byte) (n uint64, err ErrorHdr) {
 		if c < '0' || c > '9' {
 			err = ErrHdrValNotNumber
 			return
+		}
+		if n > (^uint64(0)-uint64(c-'0'))/10 {
+			// does not fit in 64 bits: saturate instead of wrapping
+			n = ^uint64(0)
+			err = ErrHdrNumTooBig
+			continue
 		}
 		n = n*10 + uint64(c-'0')
 	}
